@@ -819,9 +819,16 @@ class FileEmitter:
         nf = []
         for f in fields:
             if not f.strip(): continue
+            # attributes on the field (#[allow(..)], #[serde(..)], ...) stay in front of the visibility
+            pre = ""
+            while True:
+                ma = re.match(r"\s*#\[", f)
+                if not ma: break
+                ja = find_matching(f, ma.end() - 1)
+                pre += f[:ja + 1]; f = f[ja + 1:]
             g = re.sub(r"^(\s*)pub\s*(\([^)]*\))?\s*", r"\1", f)
             lead = re.match(r"\s*", g).group(0)
-            nf.append(lead + "pub " + g[len(lead):])
+            nf.append(pre + lead + "pub " + g[len(lead):])
         new = txt[:i + 1] + ",".join(nf) + ("," if txt[i] == "{" and nf else "") + ("\n" if txt[i] == "{" else "") + txt[j:]
         if new != txt: self.ctx.log("R-pubfields", self.rel, it.line, re.sub(r"\s+", " ", txt)[:150], re.sub(r"\s+", " ", new)[:150])
         return new
